@@ -33,7 +33,7 @@ Next == (bk = -1 /\ Grow) \/ PickBucket \/ PickTree
 In == GMap(es)
 Opts == NoOpts(pol)
 \* C09/C05: on conflict-free input every visiting order yields exactly the order-free result
-Confluent == (ft = Empty /\ es # <<>> /\ ~Conflict(In)) => NormSeq(Opts, In) = NormIdeal(In)
+Confluent == (ft = Empty /\ es # <<>> /\ ~ConflictP(pol, In)) => NormSeq(Opts, In) = NormIdeal(In)
 \* the converse, which the sequential algorithm does NOT satisfy (checked with expect_violation)
 ConflictRejected == (ft = Empty /\ IsDup(IdealVal(In))) => NormSeq(Opts, In) = [err |-> "duplicate"]
 \* the ideal result does not depend on the order at all
